@@ -34,6 +34,10 @@ def _vals(draw, strat, shape):
     return v
 
 
+# proportions of invariant sites: none, ordinary, and admissible but extreme (1 - 1e-12 .. 1 - 5e-2)
+PINV = st.one_of(st.just(0.0), fl(0.0, 0.95), fl(0.0, 0.95), logu(1e-12, 5e-2).map(lambda e: 1.0 - e))
+
+
 @st.composite
 def cases(draw):
     kind = draw(st.sampled_from(["constant", "invariant", "weibull", "weibull", "weibull"]))
@@ -44,9 +48,9 @@ def cases(draw):
         c["K"] = draw(st.integers(1, 16))
         c["shape"] = [draw(logu(1e-2, 1e2)) for _ in range(n)]
         if draw(st.booleans()):
-            c["pinv"] = [draw(st.one_of(st.just(0.0), fl(0.0, 0.95))) for _ in range(n)]
+            c["pinv"] = [draw(PINV) for _ in range(n)]
     elif kind == "invariant":
-        c["pinv"] = [draw(st.one_of(st.just(0.0), fl(0.0, 0.95))) for _ in range(n)]
+        c["pinv"] = [draw(PINV) for _ in range(n)]
     if draw(st.booleans()):
         c["mu"] = [draw(logu(1e-3, 1e3)) for _ in range(n)]
     return c
@@ -163,7 +167,7 @@ def update_cases(draw):
         if which:
             k = draw(st.sampled_from(which))
             st_["param"] = k
-            st_["value"] = draw({"shape": logu(1e-2, 1e2), "pinv": fl(0.0, 0.95), "mu": logu(1e-3, 1e3)}[k])
+            st_["value"] = draw({"shape": logu(1e-2, 1e2), "pinv": PINV, "mu": logu(1e-3, 1e3)}[k])
         steps.append(st_)
     c["steps"] = steps
     c["first"] = draw(st.sampled_from(["rp", "pr", "r", "p", "none"]))
